@@ -11,7 +11,8 @@ What is modelled (allmydata/mutable/…):
   (`start_segment` / `end_segment`), `_decode_and_decrypt_segments` (the two boundary segments),
   `_build_uploadable_and_finish`, `_modify_once`, `overwrite`, `read`.
 * `retrieve.py`  `Retrieve.download`, `_start_download` precondition, `_setup_encoding_parameters`
-  (`_start_segment`, `_last_segment`), `_decode_blocks` tail trimming, `_set_segment` trimming.
+  (`_start_segment`, `_last_segment`), `_decode_blocks` (tail decoder choice, `size_to_use`
+  trimming of the decoder's padded output), `_set_segment` trimming.
 * `layout.py`   `MDMFSlotReadProxy.get_block_and_salt` only for its segment-number check.
 
 Abstractions (each is stated in harness/props/c09.py TRUSTED/ASSUMPTIONS):
@@ -147,8 +148,29 @@ def TU.read (t : TU) (length : Nat) : Bytes × TU :=
 
 /-! ### In-place update (MDMF) and re-encode update (SDMF) -/
 
-/-- segment `i` of a version as the updater's `Retrieve.decode` yields it (trimmed to the data). -/
+/-- the plaintext of stored segment `i` of a version (what the publisher pushed for it). -/
 def segmentOf (content : Bytes) (seg i : Nat) : Bytes := slice content (i * seg) (i * seg + seg)
+
+/-- `Retrieve._decode_blocks`, the joined output of the FEC decoder for segment `segnum`: the tail
+    segment goes through `_tail_decoder` (parameters `next_multiple(_tail_data_size, k)`), every other
+    one through `_segment_decoder` (`segsize`); a decoder returns `k` blocks of `div_ceil(size, k)`
+    bytes, i.e. the stored segment followed by the publisher's zero padding (`_encode_segment` pads the
+    last piece).  (Padding is added to and removed from the crypttext; AES-CTR is length preserving,
+    so the model states it on the plaintext.) -/
+def decodedJoined (content : Bytes) (seg k segnum : Nat) : Bytes :=
+  let dl := content.length
+  let decSize := if segnum + 1 = numSegments dl seg then nextMultiple (tailSize dl seg) k
+                 else nextMultiple seg k
+  let s := segmentOf content seg segnum
+  s ++ List.replicate (decSize - s.length) 0
+
+/-- `Retrieve._decode_blocks` → `_process`: `segment[:size_to_use]` with `size_to_use =
+    _tail_data_size` iff `segnum == self._num_segments - 1` (the file's last segment — not the last
+    segment the read asks for), else `_segment_size`. -/
+def decodeBlocks (content : Bytes) (seg k segnum : Nat) : Bytes :=
+  let dl := content.length
+  let sizeToUse := if segnum + 1 = numSegments dl seg then tailSize dl seg else seg
+  (decodedJoined content seg k segnum).take sizeToUse
 
 /-- `_do_update_update`: `(start_segment, end_segment)`; `end_segment` may be -1 (empty data at 0). -/
 def updateRange (size seg off len : Nat) : Nat × Int :=
@@ -175,8 +197,9 @@ def mdmfUpdate (cfg : Cfg) (v : Version) (off : Nat) (data : Bytes) : Except Err
   -- servermap update fetches blocks `start_segment` and `end_segment` of every share
   if size = 0 then .error .assertion else             -- `Retrieve.decode`: `_assert(self._read_length > 0)`
   if ¬ startSeg < numSegments size seg then .error .index else   -- "Not a valid segment number"
-  let start := segmentOf v.content seg startSeg
-  let end_ := if endSeg < 0 then [] else segmentOf v.content seg endSeg.toNat
+  -- `_decode_and_decrypt_segments`: `Retrieve.decode` → `_decode_blocks` for the two boundary segments
+  let start := decodeBlocks v.content seg cfg.k startSeg
+  let end_ := if endSeg < 0 then [] else decodeBlocks v.content seg cfg.k endSeg.toNat
   let tu := TU.init data off seg start end_
   -- Publish.update
   let uploadSize := off + data.length                  -- `TransformingUploadable.get_size()`
@@ -219,20 +242,21 @@ def update (cfg : Cfg) (v : Version) (off : Nat) (data : Bytes) : Except Err Ver
 
 /-- `_decode_blocks` + `_set_segment` for segments `cur … last`. `start`/`last` are
     `_start_segment`/`_last_segment`. -/
-def readSegs (content : Bytes) (seg off size start last : Nat) : Nat → Nat → Bytes
+def readSegs (content : Bytes) (seg k off size start last : Nat) : Nat → Nat → Bytes
   | _, 0 => []
   | cur, c + 1 =>
-    let s0 := segmentOf content seg cur
+    let s0 := decodeBlocks content seg k cur
     let s1 := if cur = last then
                 let wanted := (off + size) % seg
                 if wanted ≠ 0 then s0.take wanted else s0
               else s0
     let s2 := if cur = start then s1.drop (off % seg) else s1
-    s2 ++ readSegs content seg off size start last (cur + 1) c
+    s2 ++ readSegs content seg k off size start last (cur + 1) c
 
 /-- `MutableFileVersion.read(consumer, offset, size)` → `Retrieve.download`. `size = none` is Python's
-    `None` (to the end; negative when `offset > datalength`, which the precondition then rejects). -/
-def read (v : Version) (off : Nat) (size? : Option Nat) : Except Err Bytes :=
+    `None` (to the end; negative when `offset > datalength`, which the precondition then rejects).
+    `k` = `verinfo[5]` (required shares; only the decoders' padding depends on it). -/
+def read (k : Nat) (v : Version) (off : Nat) (size? : Option Nat) : Except Err Bytes :=
   let dl := v.content.length
   match (match size? with | some s => some s | none => if off ≤ dl then some (dl - off) else none) with
   | none => .error .assertion
@@ -242,7 +266,7 @@ def read (v : Version) (off : Nat) (size? : Option Nat) : Except Err Bytes :=
     let seg := v.segsize
     let start := off / seg
     let last := (off + size - 1) / seg
-    .ok (readSegs v.content seg off size start last start (last + 1 - start))
+    .ok (readSegs v.content seg k off size start last start (last + 1 - start))
 
 /-! ### Node-level operations and histories -/
 
